@@ -20,6 +20,10 @@ SUBJ = {
  "D5d": "fix: mark the storage as initialized only after",
  "D5e": "fix: rollback_to_block does not skip a script",
  "D25": "fix: a fork rolls the index back to the fork point",
+ "D27": "fix: a verifiable header whose total difficulty overflows",
+ "D28": "fix: BlockFilterHashes with hostile numbers",
+ "D29": "fix: verify_mmr_proof rejects numbers",
+ "D30": "fix: the last-n range check of a proof",
  "D8": "fix: the child fast path checks the chain root",
  "D24": "fix: do not prepend overlapping old headers",
 }
